@@ -39,6 +39,9 @@ class Heap:
         self.groups = {}  # obj id -> {key: obj id}
         self.datasets = {}  # obj id -> {key: group obj id}
         self.slots = {}
+        # component ids of Vectors that were updated in place: v op= q may hand back another Vector object, so the identity of the
+        # wrappers is not promised, but every holder of the vector must show the updated values and unit
+        self.loose = set()
 
     def new_buf(self):
         self.nbuf += 1
@@ -334,14 +337,15 @@ class Spec:
                 affected_buf = {hp.arrays[c]["buf"] for c in comp_ids}
                 target_paths = {id(c) for c in comps}
                 if is_vec:
-                    # v op= q rebinds the name to a new Vector whose components wrap the same data
-                    nid = hp.new_id("v")
-                    hp.vectors[nid] = [hp.new_array(0, buf=hp.arrays[c]["buf"], idx=hp.arrays[c]["idx"]) for c in comp_ids]
+                    # v op= q may rebind the name to another Vector object; the vector it denotes is the same one for the model: every
+                    # other holder of it (the same Vector stored in a group, in several groups) must observe the update, value and unit
+                    hp.loose.update(comp_ids)
                     if tgt in hp.slots:
-                        hp.slots[tgt] = nid
                         st.slots[tgt] = res
                     if not isinstance(res, osyris.Vector):
                         problems.append(("C17:inplace-vector-result-type", {"type": type(res).__name__}))
+                    else:
+                        target_paths = {id(c) for c in res._xyz.values()} | target_paths
         elif name == "binop":
             # x (op) y with two persistent objects; nothing may change, and the result must be the physical x op y computed
             # from their *current* values (an operand converted before and modified in place since must be converted anew)
@@ -475,7 +479,16 @@ class Spec:
         seen_model = {}
         for path, w, oid in after:
             if oid in seen_model and seen_model[oid] is not w:
-                problems.append(("C17:one-model-object-is-several-live-objects", {"path": path, "after": op}))
+                if oid in hp.loose:
+                    # two holders of one vector that was updated in place: they may hold different wrapper objects, but they
+                    # denote the same quantity
+                    o = seen_model[oid]
+                    (p1, d1, _t1), (p2, d2, _t2) = _arr.phys(o), _arr.phys(w)
+                    if tuple(d1) != tuple(d2) or not np.array_equal(p1, p2) or str(o.dtype) != str(w.dtype):
+                        problems.append(("C17:inplace-update-of-a-vector-not-observed-through-another-holder", {
+                            "path": path, "after": op, "units": [str(o.unit), str(w.unit)], "values": [np.ravel(o.values).tolist(), np.ravel(w.values).tolist()]}))
+                else:
+                    problems.append(("C17:one-model-object-is-several-live-objects", {"path": path, "after": op}))
             seen_model[oid] = w
         # memory partition
         items = list(seen_model.items())
